@@ -208,6 +208,84 @@ Proof. exact encode_claims_members. Qed.
 Theorem c09_typ_default_is_spec : forall h, keys_unique (dkeys h) = true -> typ_default h = spec_header h.
 Proof. exact typ_default_spec. Qed.
 
+(* ---------- the public functions with ALL their optional arguments ----------
+   jwt_encode h c (key, algorithms, registry) encoder_cls and
+   jwt_decode tok (key, algorithms, registry) decoder_cls: the encoder / decoder
+   classes select the JSON functions (ANY functions: nothing is assumed about a
+   caller-supplied JSONDecoder / JSONEncoder subclass), isinstance(registry,
+   JWERegistry) selects the transport, which receives key, algorithms and
+   registry unchanged. *)
+
+(* only objects, for every decoder function whatsoever - including decoders that return
+   a list, a string, a number or None for an object payload or anything for a non-object
+   payload - for every choice of key, algorithms, registry and both transports *)
+Theorem c09_object_only_any_decoder :
+  forall (json_loads : option N -> bytes -> res pv)
+         (jws_decode jwe_decode : bytes -> targs -> res (hdr * bytes))
+         tok a decoder_cls h v,
+    jwt_decode json_loads jws_decode jwe_decode tok a decoder_cls = Ok (h, v) -> is_dict v = true.
+Proof. exact api_object_only. Qed.
+
+Theorem c09_decode_iff_any_options :
+  forall json_loads jws_decode jwe_decode tok a decoder_cls h v,
+    jwt_decode json_loads jws_decode jwe_decode tok a decoder_cls = Ok (h, v) <->
+    exists p, (if reg_is_jwe (ta_reg a) then jwe_decode tok a else jws_decode tok a) = Ok (h, p) /\
+              json_loads decoder_cls p = Ok v /\ is_dict v = true.
+Proof. exact api_decode_iff. Qed.
+
+Theorem c09_invalid_payload_any_options :
+  forall json_loads jws_decode jwe_decode tok a decoder_cls h p,
+    (if reg_is_jwe (ta_reg a) then jwe_decode tok a else jws_decode tok a) = Ok (h, p) ->
+    (json_loads decoder_cls p = Err EValue \/ json_loads decoder_cls p = Err EType \/
+     json_loads decoder_cls p = Err ERuntime \/
+     exists v, json_loads decoder_cls p = Ok v /\ is_dict v = false) ->
+    jwt_decode json_loads jws_decode jwe_decode tok a decoder_cls = Err (EJose InvalidPayloadError).
+Proof. exact api_invalid_payload. Qed.
+
+Theorem c09_integrity_first_any_options :
+  forall json_loads jws_decode jwe_decode tok a decoder_cls e,
+    (if reg_is_jwe (ta_reg a) then jwe_decode tok a else jws_decode tok a) = Err e ->
+    jwt_decode json_loads jws_decode jwe_decode tok a decoder_cls = Err e.
+Proof. exact api_transport_error. Qed.
+
+Theorem c09_header_unchanged_any_options :
+  forall json_dumps jws_encode jwe_encode h c a encoder_cls,
+    eo_header (jwt_encode json_dumps jws_encode jwe_encode h c a encoder_cls) = h.
+Proof. exact api_header_unchanged. Qed.
+
+Theorem c09_rt_any_options :
+  forall json_dumps json_loads jws_encode jwe_encode jws_decode jwe_decode
+         h c a encoder_cls decoder_cls tok dd,
+    (forall c' d' b, claims_pv c' = Some d' -> json_ok (PDict d') = true ->
+       json_dumps encoder_cls c' = Ok b -> json_loads decoder_cls b = Ok (PDict d')) ->
+    (forall w p t w', select_encode jws_encode jwe_encode a w p = (Ok t, w') ->
+       select_decode jws_decode jwe_decode a t = Ok (w', p) /\
+       exists extra, w' = w ++ extra /\ forall k, dmem w k = true -> dmem extra k = false) ->
+    keys_unique (dkeys h) = true -> claims_ok c = true ->
+    eo_result (jwt_encode json_dumps jws_encode jwe_encode h c a encoder_cls) = Ok tok ->
+    claims_pv (eo_claims (jwt_encode json_dumps jws_encode jwe_encode h c a encoder_cls)) = Some dd ->
+    exists extra,
+      jwt_decode json_loads jws_decode jwe_decode tok a decoder_cls = Ok (spec_header h ++ extra, PDict dd) /\
+      (forall k, dmem (spec_header h) k = true -> dmem extra k = false).
+Proof. exact api_rt. Qed.
+
+(* jwt.encode without encoder_cls (the [encode] of the Section above) is the instance
+   of the general function whose codec refuses datetime / foreign objects with TypeError *)
+Theorem c09_default_encoder_is_instance : forall jd te h c,
+  encode jd te h c = encode_g (lift_dumps jd) te h c.
+Proof. exact encode_is_g. Qed.
+
+(* non-vacuity of c09_object_only_any_decoder's subject: a decoder (an object_hook that
+   returns the member list) turning an object payload into a list is InvalidPayloadError *)
+Example c09_hostile_decoder_instance :
+  jwt_decode (fun _ _ => Ok (PList [PStr (asc "sub"); PStr (asc "admin")]))
+             (fun t _ => Ok (toy_hdr, toy_payload)) (fun _ _ => Err EValue)
+             toy_token (mkta 1 None None) (Some 5%N) = Err (EJose InvalidPayloadError) /\
+  jwt_decode (fun _ _ => Ok (PDict [(asc "sub", PStr (asc "a"))]))
+             (fun _ _ => Err EValue) (fun t _ => Ok (toy_hdr, toy_payload))
+             toy_token (mkta 1 None (Some (true, 2%N))) None = Ok (toy_hdr, PDict [(asc "sub", PStr (asc "a"))]).
+Proof. exact hostile_decoder_instance. Qed.
+
 (* integrity first, stated against the payload parser: with a failing transport
    no parser is consulted *)
 Theorem c09_integrity_independent_of_payload : forall jl1 jl2 td tok e,
@@ -263,4 +341,11 @@ Print Assumptions c09_rt.
 Print Assumptions c09_rt_claims.
 Print Assumptions c09_typ_default_is_spec.
 Print Assumptions c09_integrity_independent_of_payload.
+Print Assumptions c09_object_only_any_decoder.
+Print Assumptions c09_decode_iff_any_options.
+Print Assumptions c09_invalid_payload_any_options.
+Print Assumptions c09_integrity_first_any_options.
+Print Assumptions c09_header_unchanged_any_options.
+Print Assumptions c09_rt_any_options.
+Print Assumptions c09_default_encoder_is_instance.
 Print Assumptions c09_contracts_satisfiable.
